@@ -26,6 +26,9 @@ def run(ck, pid):
                     found[b.path] = rec["verdict"]
         want = {"dropped_result", "ok_result", "is_ok_result", "if_let_ok", "unwrap_io", "expect_io"}
         ck.ob(R, "result-discipline-detector-fires", want <= set(found), f"fixture misuse of io::Result detected in {sorted(found.items())} (expected at least {sorted(want)})", config="fixtures")
+    if pid == "C01":
+        hit = {b.path for b, s, n in dropped_fill_lengths(F)}
+        ck.ob(R, "fill-length-detector-fires", hit == {"fill_len_dropped"}, f"fixture fill_len_dropped is detected and fill_len_used / raw_read are not ({sorted(hit)})", config="fixtures")
     if pid in ("C17", "C01"):
         from .c17 import trunc_arith, unsafe_perimeter
         t = {b.path for b in F.user_bodies() for _ in trunc_arith(b)}
